@@ -88,8 +88,8 @@ void *ut_malloc(size_t size)
 
 void *ut_calloc(size_t size)
 {
-    void *p = ut_malloc(size);
-    memset(p, 0, size);
+    void *p = calloc(1, size);      /* constant sizes only (struct allocations) */
+    ASSUME(p != NULL);
     return p;
 }
 
